@@ -11,6 +11,18 @@ NOTE = ("Trusted: CrossHair 0.0.110 + z3, the overlay venv, the environment stub
         "isinstance shim), the harness oracles under /verif/vf. Grammars are a fixed corpus (classes cannot be symbolic); all bounds are in evidence.assumptions.")
 
 CLAIMED = {
+    "C15": dict(
+        text="Engine B: the current source of ParallelStep.compute_ranges (shared by ExclusiveParallelStep) is interpreted into z3 integer/rational "
+             "terms with population length and target size SYMBOLIC (1 <= target <= population <= 10^5) for every weight vector of a finite family "
+             "(all of {0..4}^k, k<=3 quick; {0..6}^k, k<=4 thorough; plus the vectors used in the repository, incl. fractional ones): unsat of 'slices "
+             "negative or not adding up to the target' per vector; the encoding is differentially validated against the real method on every run and "
+             "every sat model is replayed on the real method. Engine A: every built-in step, combinator nesting and initialiser is executed with "
+             "symbolic target k, population size m >= k, symbolic probabilities / weights / tournament sizes / injected-list lengths and symbolic draws, "
+             "with the population passed as list, Population and one-shot iterator: exactly k individuals on every path; plus real GP generation loops "
+             "whose every generation must have exactly population_size members. Bounded: k <= 3-4, m <= 4-5, nesting depth <= 3.",
+        design_ref="DESIGN.md section 4 (C15)",
+        technique="own AST->z3 encoding of the rounding kernel (engine B, z3 Int/Real, per-vector unsat) + bounded symbolic execution of the steps (CrossHair)",
+    ),
     "C14": dict(
         text="The real search() loops of random search, (1+1), hill climbing and GP run with the evaluation budget n a symbolic integer, symbolic "
              "neighbourhood / population sizes and, for GP, a symbolic number of fresh individuals per generation (plus the built-in mutation, elitism, "
